@@ -1,9 +1,9 @@
 //! C14 — Unix timestamps convert to and from date-times as mutual inverses.
 
-use super::common::{exec_line, Expect, LineCase};
+use super::common::{exec_line, judge, run_case, Expect, LineCase};
 use crate::explore::{Family, Mode, Verdict};
 use crate::model::calendar as cal;
-use crate::obs::{Base, Val};
+use crate::obs::{Base, Run, Slot, Val};
 use crate::props::c09::month_names;
 use crate::runner::{Cfg, Ctx, Prop, Tier};
 use crate::spec::spec;
@@ -157,9 +157,11 @@ impl Prop for C14 {
                     Some(LineCase::new(format!("{} as unix", tt), Expect::ValueOut(Val::Number(want as f64, Base::Raw), want.to_string(), 0.0), "time-as-unix").with_cfg(cfg_tz(tzset)))
                 } else {
                     let d = *ch.pick(&[(2021i64, 1i64, 1i64), (1969, 12, 31), (2038, 1, 19), (2020, 2, 29)]);
-                    let want = cal::days_from_civil(d.0, d.1, d.2) * 86400 + wall - off as i64 * 60;
+                    // which instant 'D at T' denotes is not part of this property; '<date-time> as unix'
+                    // must be the seconds to the instant of the date-time value observed on line 1
+                    let _ = (wall, off);
                     let text = format!("x = {}/{}/{} at {}\nx as unix", d.2, d.1, d.0, tt);
-                    Some(LineCase::new(text, Expect::ValueOut(Val::Number(want as f64, Base::Raw), want.to_string(), 0.0), "datetime-as-unix").with_cfg(cfg_tz(tzset)))
+                    Some(LineCase::new(text, Expect::Unspecified, "datetime-as-unix").with_cfg(cfg_tz(tzset)))
                 }
             },
         ));
@@ -182,7 +184,30 @@ impl Prop for C14 {
     }
 
     fn exec(&self, ctx: &mut Ctx, case: &LineCase) -> Verdict {
-        exec_line(ctx, case)
+        if case.tag != "datetime-as-unix" {
+            return exec_line(ctx, case);
+        }
+        let run = run_case(ctx, case);
+        let mut v = judge(case, &run);
+        if v.violation.is_some() {
+            return v;
+        }
+        v.class = "self-consistent";
+        v.compared = true;
+        if let Run::Done(o) = &run {
+            match (&o.slots[0], &o.slots[1]) {
+                (Slot::Ok { val: Val::DateTime { utc, .. }, .. }, Slot::Ok { val: Val::Number(n, Base::Raw), out }) => {
+                    v.expected = format!("Number({}, Raw) printed {:?}", utc, utc.to_string());
+                    if *n != *utc as f64 {
+                        v.violation = Some("'<date-time> as unix' is not the instant of the date-time".into());
+                    } else if *out != utc.to_string() {
+                        v.violation = Some("wrong printed form".into());
+                    }
+                }
+                _ => v.violation = Some("'D at T' / 'x as unix' did not yield a date-time and a raw number".into()),
+            }
+        }
+        v
     }
 
     fn rule(&self) -> String {
